@@ -262,8 +262,10 @@ class LockStep:
 
     def checkpoint_roundtrip(self, compute_inverses=True, include_factors=True):
         """state -> pickle -> fresh model copy + fresh preconditioner -> load.  Returns None or (key, msg)."""
-        if not compute_inverses and not self.ref.is_refresh_step():
-            compute_inverses = True     # documented requirement
+        if not compute_inverses and (not self.ref.is_refresh_step() or (self.sched_json and 'inv_update_steps' in self.sched_json)):
+            # documented requirement: without inverses the first step after loading must be an inverse-update step
+            # (a scheduler over inv_update_steps could still change that before the step, so it is not risked then)
+            compute_inverses = True
         if not include_factors and not (self.ref.is_refresh_step() and self.ref.is_factor_step() and False):
             include_factors = True      # resuming without factors is only meaningful for a fresh start; not exercised here
         try:
